@@ -48,7 +48,7 @@ CFG = dict(
          "no panic, output length, and the null / non-null pattern against the model run (positions whose window is singular in "
          "exact arithmetic are skipped, DESIGN 5.6); nt=0 marks empty input",
     theorem_hint="Props/C05.v",
-    level_text="Proof (Props/C05.v, 44 obligations): (i) every add-emit-remove rolling feature returns exactly one output per "
+    level_text="Proof (Props/C05.v, 52 obligations): (i) every add-emit-remove rolling feature returns exactly one output per "
                "input through both driver bodies, for every window >= 1, and an empty result on empty input, never a panic or an "
                "unwritten slot (generic, any carrier); the index-form entry points (ts_vmin/vmax/vargmin/vargmax/vrank, "
                "ts_vminmaxnorm, ts_vregx_resid_*) return the empty result on the empty series for EVERY window, carrier and null "
@@ -64,8 +64,9 @@ CFG = dict(
                "variance <= EPS), regx_alpha/beta/all (detB = n Sbb - Sb^2 = 0, i.e. constant regressor), regx_resid_mean/std/skew "
                "(detB = 0; skew additionally n < 3) over the pairwise-complete observations; min/max/argmin/argmax (integer "
                "carrier, any null dictionary, axiom-free: count < mp' or no valid element), rank (current element null or count "
-               "< mp'); ts_fdiff (null-free input: never null), ts_vfdiff (count < mp'). Derived from the closed forms of "
-               "C01/C03/C04 (Proofs/Mask.v, Mask2.v, Mask3.v). Not covered by a theorem (correspondence only): float element "
+               "< mp'); ts_fdiff (null-free input: never null), ts_vfdiff (count < mp'); the plain families ts_sum..ts_kurt, ts_ewm, "
+               "ts_wma on null-free input (same masks, count = window length). Derived from the closed forms of "
+               "C01/C03/C04 (Proofs/Mask.v, Mask2.v, Mask3.v, Mask4.v). Not covered by a theorem (correspondence only): float element "
                "carrier of the extrema/rank family, series of unequal length in the two-series functions, a null order d in "
                "fdiff, min-max norm without the sentinel bound. Tied to the code by a mask-only differential run of all 37 entry "
                "points on every backend incl. empty and len < w input.",
